@@ -5,7 +5,7 @@ Each generated case carries
   * the database instance,
   * the names of the final frame (for C05).
 All randomness comes from the rng handed in."""
-import random
+import random, re
 
 INT, TXT, BOOL = "int", "text", "bool"
 
@@ -267,9 +267,11 @@ class Gen:
         sx = []
         frames = [frame]
         n = len(forced) if forced else rng.randint(1, self.max_tr)
+        self.cur_sort = None          # [(column name, desc)] of the sort in effect, when it is known and total
         for j in range(n):
             k = forced[j] if forced else rng.choice(self.kinds)
             res = None
+            self._sort_after = "keep"
             for _attempt in range(6 if forced else 1):
                 res = getattr(self, "tr_" + k)(frame, sname)
                 if res is not None:
@@ -279,6 +281,18 @@ class Gen:
                     raise NotApplicable(k)
                 continue
             t, s, frame = res
+            if k == "sort":
+                self.cur_sort = self._sort_after if isinstance(self._sort_after, list) else None
+            elif k in ("filter", "derive", "take"):
+                pass
+            elif k in ("select", "exclude"):
+                names = [c.name for c in frame]
+                if self.cur_sort and not all(n_ in names and names.count(n_) == 1 for n_, _ in self.cur_sort):
+                    self.cur_sort = None
+            elif k == "window" and self._sort_after == "keep-window":
+                pass
+            else:
+                self.cur_sort = None
             text.append(t)
             sx.append(s)
             frames.append(frame)
@@ -381,6 +395,15 @@ class Gen:
         if not r:
             return None
         ks, sx = r
+        # remember the keys when they are plain columns (by name), so that a later window function can rely on this order
+        simple = []
+        for k, x in zip(ks, sx):
+            m = re.fullmatch(r"\( (asc|desc) \( col (\d+) \) \)", x)
+            if not m:
+                simple = None
+                break
+            simple.append((frame[int(m.group(2))].name, m.group(1) == "desc"))
+        self._sort_after = simple
         return ("sort {" + ", ".join(ks) + "}", "( sort ( " + " ".join(sx) + " ) )", frame)
 
     def take_range(self):
@@ -495,6 +518,12 @@ class Gen:
     def tr_window(self, frame, sname):
         rng = self.rng
         form = rng.choice(["plain", "group", "group_sort", "sort_window", "group_sort_window", "sort_fns"])
+        inherit = None
+        if getattr(self, "cur_sort", None) and rng.random() < 0.6:
+            names = [c.name for c in frame]
+            if all(n_ in names for n_, _ in self.cur_sort) and any(frame[names.index(n_)].key for n_, _ in self.cur_sort):
+                inherit = [(names.index(n_), d_) for n_, d_ in self.cur_sort]
+                form = "inherit"
         ints = [(i, c) for i, c in enumerate(frame) if c.ty == INT]
         keys = [(i, c) for i, c in enumerate(frame) if c.key]
         if not ints:
@@ -509,8 +538,11 @@ class Gen:
         if not avail:
             return None
         order_t, order_s = [], []
-        needs_order = form in ("group_sort", "sort_window", "group_sort_window", "sort_fns")
-        if needs_order:
+        needs_order = form in ("group_sort", "sort_window", "group_sort_window", "sort_fns", "inherit")
+        if form == "inherit":
+            order_s = [f"( {'desc' if d_ else 'asc'} ( col {i_} ) )" for i_, d_ in inherit]
+            order_t = ["(inherited)"]
+        elif needs_order:
             # a total order: the unique key column (possibly after another key)
             uk = [(i, c) for i, c in keys if i not in ks]
             if not uk:
@@ -578,6 +610,11 @@ class Gen:
         base = [frame[i].copy() for i in ks] + [c.copy() for i, c in enumerate(frame) if i not in ks]
         sx_w = f"( window ( {' '.join(map(str, ks))} ) ( " + " ".join(ws) + " ) )"
         if form in ("plain",):
+            self._sort_after = "keep-window"
+            return (der, sx_w, base + nf)
+        if form == "inherit":
+            # the window functions rely on the sort already in effect (possibly several transforms back)
+            self._sort_after = "keep-window"
             return (der, sx_w, base + nf)
         if form == "group":
             return ("group {" + ", ".join(frame[i].ref for i in ks) + "} (" + der + ")", sx_w, base + nf)
